@@ -556,3 +556,186 @@ Proof.
   - intros; eapply acc_cb_spec; eauto.
   - apply Forall_forall; auto.
 Qed.
+
+
+(* ---- the same, for the two grant indexes (token id, refresh token) ---- *)
+Section OnceGrant.
+  Variable f : gfield.
+  Variable cons : config -> op -> obs -> option id.     (* the credential value a successful operation consumed *)
+  Variable wfop : op -> Prop.
+  (* what a successful consumption means on the stored sessions *)
+  Hypothesis cons_spec : forall w st n o v, sfresh n st -> wfop o ->
+    cons (w_cfg w) o (snd (step w st n o)) = Some v ->
+    v <> 0 /\ (exists s, In s (st_gsess (s_store st)) /\ gget f s = v) /\
+    (forall s', In s' (st_gsess (s_store (fst (step w st n o)))) -> gget f s' <> v).
+
+  (* acc: the operation was ACCEPTED on presentation of credential v (a superset of cons) *)
+  Variable acc : config -> op -> obs -> option id.
+  Hypothesis acc_spec : forall w st n o v, sfresh n st -> wfop o ->
+    acc (w_cfg w) o (snd (step w st n o)) = Some v -> v <> 0 ->
+    exists s, In s (st_gsess (s_store st)) /\ gget f s = v.
+
+  (* 0: no consumed credential was ever accepted again; k: operation k (1-based) accepted a dead one *)
+  Fixpoint gonce_from (cfg : config) (used : list id) (k : nat) (ops : list op) (xs : list obs) : N :=
+    match ops, xs with
+    | o :: ops', x :: xs' =>
+        if match acc cfg o x with Some v => andb (memN v used) (negb (is_nil v)) | None => false end
+        then N.of_nat (S k)
+        else gonce_from cfg (match cons cfg o x with Some v => v :: used | None => used end) (S k) ops' xs'
+    | _, _ => 0
+    end.
+
+  Definition gdead (used : list id) (n : nat) (st : state) : Prop :=
+    forall v, In v used -> v <> 0 /\ gold n f v /\ forall s, In s (st_gsess (s_store st)) -> gget f s <> v.
+
+  Lemma gdead_step w used st n o :
+    sfresh n st -> gdead used n st -> gdead used (S n) (fst (step w st n o)).
+  Proof.
+    intros F D v Hv. destruct (D v Hv) as [NZ [Old NoS]]. split; [auto|split].
+    - eapply gold_mono; [|eauto]. lia.
+    - intros s' Hs' E. destruct (step_prov w st n o F) as [_ PA].
+      destruct (PA s' Hs' f) as [Z|[Nw|[y [Hy Ey]]]].
+      + congruence.
+      + eapply gold_not_now; [exact Old|]. rewrite <- E. exact Nw.
+      + eapply NoS; eauto. congruence.
+  Qed.
+
+  Lemma gonce_sound w : forall ops used st n,
+    Forall wfop ops -> sfresh n st -> gdead used n st ->
+    gonce_from (w_cfg w) used n ops (snd (run_from w st n ops)) = 0.
+  Proof.
+    induction ops as [|o ops IH]; intros used st n WF F D; cbn; auto.
+    inversion WF as [|? ? WFo WFr]; subst.
+    unfold run_from in *. cbn.
+    pose proof (step_fresh w st n o F) as F1.
+    pose proof (gdead_step w used st n o F D) as D1.
+    pose proof (cons_spec w st n o) as CS.
+    unfold step in *.
+    destruct (step_with (@run_seq obs) w st n o) as [st' x] eqn:E. cbn in *.
+    destruct (run_from_with (@run_seq obs) w st' (S n) ops) as [st'' tr] eqn:E2. cbn.
+    specialize (IH used st' (S n) WFr F1) as IHu. rewrite E2 in IHu. cbn in IHu.
+    pose proof (acc_spec w st n o) as AS. rewrite E in AS. cbn in AS.
+    destruct (acc (w_cfg w) o x) as [a|] eqn:EA.
+    - destruct (memN a used && negb (is_nil a))%bool eqn:EM.
+      + apply andb_true_iff in EM as [EM1 EM2]. apply memN_In in EM1. destruct (D a EM1) as [NZ [_ NoS]].
+        destruct (AS a F WFo eq_refl NZ) as [s [Hs Es]]. exfalso. eapply NoS; eauto.
+      + clear EM AS. revert IHu IH. generalize EA. clear EA. intros _ IHu IH.
+        destruct (cons (w_cfg w) o x) as [v|] eqn:EC; [|apply IHu; auto].
+        destruct (CS v F WFo eq_refl) as [NZ [[s [Hs Es]] Gone]].
+        specialize (IH (v :: used) st' (S n) WFr F1). rewrite E2 in IH. cbn in IH. apply IH.
+        intros v' [<-|Hv']; [|apply D1; auto].
+        split; [auto|split; [|auto]].
+        destruct F as [_ [FO _]]. destruct (FO s f Hs) as [Z|Old]; [congruence|].
+        rewrite Es in Old. eapply gold_mono; [|eauto]. lia.
+    - clear AS.
+      destruct (cons (w_cfg w) o x) as [v|] eqn:EC; [|apply IHu; auto].
+      destruct (CS v F WFo eq_refl) as [NZ [[s [Hs Es]] Gone]].
+      specialize (IH (v :: used) st' (S n) WFr F1). rewrite E2 in IH. cbn in IH. apply IH.
+      intros v' [<-|Hv']; [|apply D1; auto].
+      split; [auto|split; [|auto]].
+      destruct F as [_ [FO _]]. destruct (FO s f Hs) as [Z|Old]; [congruence|].
+      rewrite Es in Old. eapply gold_mono; [|eauto]. lia.
+  Qed.
+
+  Theorem gonce_all_histories w dyn ops :
+    Forall wfop ops -> gonce_from (w_cfg w) [] 0 ops (run w dyn ops) = 0.
+  Proof.
+    intros WF. unfold run. apply gonce_sound; auto.
+    - apply fresh_init.
+    - intros v [].
+  Qed.
+End OnceGrant.
+
+(* ---- refresh tokens ---- *)
+Definition refresh_ok (w : world) (n : nat) (now : Z) (r : treq) (st st' : store) (t : tresp) : Prop :=
+  exists g c g',
+    is_nil (t_refresh r) = false /\
+    find (fun g => ideq (g_refresh g) (t_refresh r)) (st_gsess st) = Some g /\
+    snd (run_seq (authenticated w (t_cred r)) st) = Some c /\
+    g_client g = c_id c /\
+    geb now (g_expires g) = false /\
+    contains_all_scopes (g_granted g) (t_scope r) = true /\
+    st_gsess st' = put_gsess g' (st_gsess st) /\ st_asess st' = st_asess st /\
+    g_id g' = g_id g /\ g_expires g' = g_expires g /\ g_granted g' = g_granted g /\
+    g_client g' = g_client g /\ g_subject g' = g_subject g /\
+    g_refresh g' = (if cf_refresh_rotation (w_cfg w) then mint n KRefresh else g_refresh g) /\
+    tr_rt t = (if cf_refresh_rotation (w_cfg w) then mint n KRefresh else 0).
+
+Local Transparent make_token.
+Lemma refresh_grant_post w n now r st t :
+  snd (run_seq (refresh_grant w n now r) st) = OTokens t ->
+  refresh_ok w n now r st (fst (run_seq (refresh_grant w n now r) st)) t.
+Proof.
+  unfold refresh_grant.
+  destruct (negb _); [dead|]. destruct (is_nil (t_refresh r)) eqn:ENil; [dead|].
+  rewrite run_authenticated.
+  destruct (snd (run_seq (authenticated w (t_cred r)) st)) as [c|] eqn:EA; [|dead].
+  cbn. destruct (find _ (st_gsess st)) as [g|] eqn:EF; cbn; [|dead].
+  unfold tokens_out. destruct (cf_refresh_rotation (w_cfg w)) eqn:ERot.
+  all: repeat (cbn; try discriminate; break_inner).
+  all: cbn; try discriminate.
+  all: intros H; injection H; clear H; intros <-.
+  all: match goal with g0 : gsession, c0 : client |- _ => exists g0, c0 end; eexists; repeat split; auto.
+  all: try client_eq.
+  all: try (match goal with H : negb (contains_all_scopes _ _) = false |- _ => apply negb_false_iff in H; exact H end).
+  all: try (cbn; rewrite ?ERot; reflexivity).
+Qed.
+
+Definition cons_rt (cfg : config) (o : op) (x : obs) : option id :=
+  match o, x with
+  | OpToken GRefreshToken r, Out (OTokens _) => if cf_refresh_rotation cfg then Some (t_refresh r) else None
+  | _, _ => None
+  end.
+(* accepted: any successful refresh *)
+Definition acc_rt (_ : config) (o : op) (x : obs) : option id :=
+  match o, x with
+  | OpToken GRefreshToken r, Out (OTokens _) => Some (t_refresh r)
+  | _, _ => None
+  end.
+Lemma find_rt_in c l g : find (fun g => ideq (g_refresh g) c) l = Some g -> In g l /\ g_refresh g = c.
+Proof. intros H. apply find_some in H as [H1 H2]. apply N.eqb_eq in H2. auto. Qed.
+
+Local Opaque refresh_grant.
+Lemma acc_rt_spec w st n o v : sfresh n st -> True ->
+  acc_rt (w_cfg w) o (snd (step w st n o)) = Some v -> v <> 0 ->
+  exists g, In g (st_gsess (s_store st)) /\ gget FRefresh g = v.
+Proof.
+  intros F _ H _. destruct o; try discriminate. destruct g; try discriminate.
+  rewrite step_handler in * by (intros d; discriminate). cbn [handler fst snd s_store] in *.
+  rewrite run_lift in *. cbn [fst snd] in *.
+  destruct (snd (run_seq (refresh_grant w n (s_now st) r) (s_store st))) eqn:EO; try discriminate.
+  cbn in H. injection H as <-.
+  destruct (refresh_grant_post w n (s_now st) r (s_store st) _ EO) as (g & c & g' & NN & EF & _).
+  apply find_rt_in in EF as [Hg Ec]. exists g; auto.
+Qed.
+Lemma cons_rt_spec w st n o v : sfresh n st -> True ->
+  cons_rt (w_cfg w) o (snd (step w st n o)) = Some v ->
+  v <> 0 /\ (exists g, In g (st_gsess (s_store st)) /\ gget FRefresh g = v) /\
+  (forall g', In g' (st_gsess (s_store (fst (step w st n o)))) -> gget FRefresh g' <> v).
+Proof.
+  intros F _ H. destruct o; try discriminate. destruct g; try discriminate.
+  rewrite step_handler in * by (intros d; discriminate). cbn [handler fst snd s_store] in *.
+  rewrite run_lift in *. cbn [fst snd] in *.
+  destruct (snd (run_seq (refresh_grant w n (s_now st) r) (s_store st))) eqn:EO; try discriminate.
+  cbn in H. destruct (cf_refresh_rotation (w_cfg w)) eqn:ERot; [|discriminate]. injection H as <-.
+  destruct (refresh_grant_post w n (s_now st) r (s_store st) _ EO) as (g & c & g' & NN & EF & _ & _ & _ & _ & EP & _ & Eid & _ & _ & _ & _ & ER & _).
+  rewrite ERot in ER.
+  apply find_rt_in in EF as [Hg Ec].
+  assert (NZ : t_refresh r <> 0) by (intros Z; rewrite Z in NN; discriminate).
+  split; [auto|split].
+  - exists g; auto.
+  - intros g2 Hg2 E. rewrite EP in Hg2. apply (in_put _ g_id) in Hg2 as [->|[Hg2 Ne]].
+    + cbn in E. rewrite ER in E. destruct F as [_ [FO _]]. destruct (FO g FRefresh Hg) as [Z|Old]; cbn in *; [congruence|].
+      eapply (gold_not_now n FRefresh (mint n KRefresh)); [|reflexivity]. rewrite E, <- Ec. exact Old.
+    + apply Ne. rewrite Eid. destruct F as [_ [_ FU]]. apply (FU g2 g FRefresh); auto; cbn in *; congruence.
+Qed.
+Local Transparent refresh_grant.
+
+(* with rotation, a refresh token that produced tokens is never accepted again *)
+Theorem rotation_one_shot_all w dyn ops : gonce_from cons_rt acc_rt (w_cfg w) [] 0 ops (run w dyn ops) = 0.
+Proof.
+  apply (gonce_all_histories FRefresh cons_rt (fun _ => True)).
+  - intros; eapply cons_rt_spec; eauto.
+  - intros; eapply acc_rt_spec; eauto.
+  - apply Forall_forall; auto.
+Qed.
